@@ -197,7 +197,7 @@ def _work_variants(task) -> core.Part:
     want = tuple((x, True) for x in sent)
     p.add("nontrivial")
     for how, chunks in (("bytewise", X.bytewise(S)), ("fixed7", X.fixed(S, 7, 3)), ("fixed64", X.fixed(S, 64)), ("oneshot", [S])):
-        for vname, early, final in X.feed_variants(P.new_reader, chunks, one):
+        for vname, early, final in X.feed_variants(P.new_reader, chunks, one, twin_stream=(shapes()["r_esc"] + shapes()["r_nocs"]) * 2):
             p.add("executions")
             p.add("events", len(chunks))
             if early != final or final != want:
